@@ -61,8 +61,7 @@ def run(prog: Program, res: Result, tier: str) -> None:
                 else:
                     res.bad("R1", m, s, f"chan_mask is assigned `{norm(v)}`: not np.logical_or(self.chan_mask, <component stored here>) - a later "
                             f"mask could clear channels or diverge from its recorded component", key=key)
-    if n1 < 3:
-        raise AnalysisError(f"only {n1} assignments to RFIMask.chan_mask found (3 confirmed by hand)")
+    res.notes.append(f"assignments to RFIMask.chan_mask: {n1} (3 confirmed by hand; enforced through the R1 floor)")
     am = cls.methods["apply_mask"]
     src = norm(am.node)
     ok = "mask = np.logical_and(self.header.chan_freqs >= freq_range[0], self.header.chan_freqs <= freq_range[1])" in src and \
